@@ -47,13 +47,17 @@ CLAIMED["C11"] = ("proof", DATA_NOTE + "C11: every case in exactly one slice for
     "calendar / month / year buckets and date<->unixtime<->daynum inverses decided for every day 1900-2100 (vm_compute over a finite "
     "domain lifted by forallb_forall, bound in the statement); Model/Cal.v tied to datetime/calendar/matplotlib by comparison "
     "(every day 1900-2100 in the thorough tier).", "7 C11", "Coq proof over hand model + correspondence check")
-CLAIMED["C18"] = ("model_checking", "Stateful executable Coq model of Data.get_scores (Model/DataState.v: both caches, a heap of array objects with identity, "
-    "every in-place write) evaluated by vm_compute and compared with ONE verif.data.Data object over the same histories: exhaustive up to "
-    "length 2 (quick) / 3 (thorough) over a 12-request menu per dataset plus random histories to length 10; compared are the arrays at return "
-    "time and the same objects at the end. Theorems: the pinned code's semantics (copy_all = false) REFUTES history independence (2-request "
-    "witness, reproduced on the implementation and repaired by fix c0f782e); cache-hit and mask-idempotence lemmas (partial); the unbounded "
-    "invariant proof is in progress. Falsifier: every response vs a fresh Data, earlier arrays / inputs unchanged, repeatability.",
-    "7 C18", "Coq executable state-machine model + exhaustive-history correspondence check (partial proof)")
+CLAIMED["C18"] = ("proof", "Stateful executable Coq model of Data.get_scores (Model/DataState.v: both caches, a heap of array objects with identity, "
+    "every in-place write of the code). THEOREMS, for histories of ANY length, any dataset / options / value type, by invariant induction "
+    "over the request list (Proofs/C18_frame.v, C18_refine.v, ~1200 lines, axiom-free): (1) REFINEMENT -- after any history the repaired "
+    "get_scores answers a request with exactly the arrays the pure model of a freshly built dataset computes (the model C01-C04/C11/C14 are "
+    "about) and fails exactly when it fails; (2) arrays handed out are never altered by later calls; (3) a repeated request returns the same "
+    "objects; (4) the pinned code's semantics (cached array handed out and masked in place) REFUTES history independence with a 2-request "
+    "witness (reproduced on the implementation, repaired by fix c0f782e). TIE: the model is evaluated by vm_compute and compared with ONE "
+    "real verif.data.Data object over the same histories (exhaustive to length 2 / 3 over a 12-request menu per dataset plus random "
+    "histories to length 10; arrays at return time AND the same objects at the end of the history); falsifier: every response vs a fresh "
+    "Data, earlier arrays / inputs unchanged, repeatability.",
+    "7 C18", "Coq refinement proof of a hand-written state-machine model (invariant induction over histories) + exhaustive-history correspondence check")
 TRANS_NOTE = ("Python-ast -> Gallina translator regenerates the definitions from /repo on every run (fail-closed); theorems over the "
     "extended reals XR (NaN | -inf | +inf | finite real, IEEE special-value rules, exact finite arithmetic); the same generated text is run on "
     "Coq primitive floats and diffed against the real classes (translation validation); falsifier with independent textbook oracles. ")
